@@ -59,7 +59,12 @@ def check_sy_is_the_parameter_sets(ctx, sy, params, grid, inp):
 
 
 def check_curve(ctx, sy, grid, mean, inp):
-    import spowtd.simulate_rise as sr
+    import spowtd.simulate_rise as _sr
+
+    class sr:   # a mean that is not given is the documented default, zero
+        @staticmethod
+        def compute_rise_curve(sy_, g_, mean_):
+            return _sr.compute_rise_curve(sy_, g_) if mean_ is None else _sr.compute_rise_curve(sy_, g_, mean_)
     ob = "compute_rise_curve = model riseCurve at Float on the recorded integrals"
     if "parameters" in inp and not check_sy_is_the_parameter_sets(ctx, sy, inp["parameters"], grid, inp):
         return [float(v) for v in sr.compute_rise_curve(sy, np.array(grid, dtype=float), mean)]
@@ -67,6 +72,11 @@ def check_curve(ctx, sy, grid, mean, inp):
     with sim.record_integrate(sy) as calls:
         sim.dirty_heap(ctx.rng, len(g))
         W = [float(v) for v in sr.compute_rise_curve(sy, g, mean)]
+    if mean is None:
+        ctx.count("curves_with_the_default_mean")
+        mean = 0.0
+    elif mean == 0.0:
+        ctx.count("curves_with_mean_exactly_zero")
     if not common.same_as_snapshot(g, np.array(grid, dtype=float)):
         ctx.violation("impl-violation", "c17Holds", {"input": inp, "impl": [float(v) for v in g], "oracle": {
             "name": "c17Holds", "result": False, "witness": {"why": "the caller's grid of levels was modified by compute_rise_curve"}}})
@@ -137,7 +147,7 @@ def run(ctx):
             grid = sorted({round(rng.uniform(a, b), 1) for _ in range(n)})
             if len(grid) < 2:
                 continue
-            mean = rng.uniform(-50, 50)
+            mean = rng.choice([rng.uniform(-50, 50), rng.uniform(-50, 50), 0.0, None, float(rng.randint(-3, 3)), 10 ** rng.uniform(-12, 3)])
             ctx.case(("c17", str(params), tuple(grid)), len(grid) >= 3)
             check_curve(ctx, sy, grid, mean, {"parameters": params, "grid": grid, "mean": mean})
     # the command
